@@ -25,6 +25,33 @@ CLAIMS = {
          "mask/shift/wrapping arithmetic from plain modular arithmetic.",
          "Constants are assumed to fit their width (wfEx), which the lexer establishes and the correspondence stream exercises.",
          "Lean 4 proof by mutual structural induction + differential oracle on type-directed expressions"),
+ "C03": ("Lean theorems C03_bank_edge / C03_edge about the model of process_register_banks: for every value table and every list "
+         "of banks whose outputs are not among the wires any other bank looks at (pairwise distinct prefix letters), after the "
+         "clock edge every register of a bank holds its default if the bank's bubble signal is non-zero, else its old value if "
+         "stall is non-zero, else the end-of-cycle value of its input; no other wire changes. That outputs do not change "
+         "within a cycle is C01_stable. Induction over the bank list gives all stall/bubble histories; the S-PROG banks "
+         "profile (stall/bubble toggling per bank from a counter) ties it to the code.",
+         "BankWF (presence of the bank's wires, distinct output names) is established by Program.new and checked through the streams.",
+         "Lean 4 proof (fold invariants over defaults/signals, frame lemma across banks) + differential oracle"),
+ "C04": ("Lean theorems C04_read (read port = start-of-cycle register), C04_write_port, C04_write_E_then_M (result of the two "
+         "write ports in schedule order equals Spec.regWrite applied for E then M), C04_M_wins, C04_reg15 and "
+         "C04_reg15_invariant (no action ever changes register 15; all registers start at 0). E-before-M and "
+         "reads-before-writes in the real schedule are validated on every produced schedule (schedValid).",
+         "The order of the write ports in y86_fixed_functions() is tied by the per-schedule validation, not yet by the translator.",
+         "Lean 4 proof + schedule validation + differential oracle with collision coverage"),
+ "C05": ("Lean theorems C05_read_spec / C05_write_spec (the BTreeMap model's read and write are the specified little-endian "
+         "rdLE/wrLE over addresses modulo 2^64), wrLE_hit / wrLE_other / C05_read_after_write / C05_last_write_wins / "
+         "C05_untouched (every byte is the most recent earlier write to its address, else the image; wrap-around included), "
+         "C05_read_port / C05_instruction_port / C05_write_port (enable semantics of the ports). Reads see start-of-cycle memory by "
+         "C01_settlement; the write is among the final actions (validated per schedule).",
+         "", "Lean 4 proof (function-update reasoning, induction over histories) + differential oracle"),
+ "C06": ("Lean theorems C06_terminates (the run loop never exhausts the fuel timeout+1-cycle: run() terminates within timeout "
+         "cycles), C06_stop (it returns after exactly k cycles where the k-th state is the first that is done: status outside "
+         "{AOK,BUB} or budget used), C06_within_timeout (cycle count <= timeout; 0 cycles for timeout 0), C06_report (banner and "
+         "Cycles run/Error code lines as a function of status, cycle and timeout). The real run() and final dump are compared "
+         "with model and specification on Stat sequences hitting every 3-bit value at every position and all timeouts 0..14.",
+         "The text of the banner lines is compared through the harness (kind, counts, code number), rendering itself is C16.",
+         "Lean 4 proof (induction over fuel/cycles) + differential oracle"),
  "C07": ("Lean theorems C07_soundness / C07_cycle / C07_expression: from a well-typed state, any number of cycles of a program "
          "satisfying ProgramOK (every assignment accepted by the checker and width-fixed, reads scheduled after writes) ends "
          "each cycle in a well-typed state or an explicit DivideByZero; every Rust panic site of evaluate/apply/step/"
@@ -40,6 +67,13 @@ CLAIMS = {
          "injection (through components, banks, write ports, constants) is compared with the reachability-based specification.",
          "Program-level edge construction is covered by the loop-injection stream and Spec.faults, not yet by a theorem.",
          "Lean 4 proof (invariants over Kahn and DFS loops) + differential replay with logged hash orders"),
+ "C20": ("Lean theorems C20_disasm (for every valid Y86-64 instruction - all opcodes, condition/function codes, register pairs "
+         "and all 64-bit immediates - and any following bytes, disassemble consumes exactly the encoding's length and prints the "
+         "CS:APP text), C20_invalid (opcode nibble > 0xB: one byte, <invalid>), C20_line (the trace line shows pc, then exactly "
+         "the instruction's bytes as they are in memory at pc.. mod 2^64, in memory order, then the text). Exhaustive "
+         "first-two-byte comparison of the real disassembler with model and specification, and real trace lines.",
+         "Hex formatting ({:x}, {:02x}) is a shared primitive of model and specification (Hcl/Util/Format.lean), compared with Rust's through the streams.",
+         "Lean 4 proof (case split on instruction form, omega for field extraction) + exhaustive differential check"),
  "C17": ("Lean theorem C17_eval_flag_independent: an expression accepted under two strictness flag sets has the same width "
          "and evaluates identically under both, for every valuation (the flags occur in the model's check and applyBin; the "
          "specification's value does not mention them). The harness is rebuilt per cargo feature set and accept/reject + "
